@@ -73,7 +73,11 @@ type RangeIter struct {
 
 // cell kinds stored in objects
 type ifaceTypeWord struct{ T types.Type }
-type ifaceDataWord struct{ V Value }
+type ifaceDataWord struct {
+	V   Value
+	raw bool    // V is a raw data pointer (written through rt.GoEface)
+	box *Object // object holding the boxed value (for reads through rt.GoEface)
+}
 
 type cell struct {
 	size int
@@ -92,6 +96,7 @@ type Object struct {
 	// ghost state
 	Ghost map[string]interface{}
 	Epoch int
+	TypeOf types.Type // non-nil: this object stands for the runtime type descriptor of TypeOf
 }
 
 func (o *Object) String() string {
